@@ -8931,3 +8931,323 @@ func ruleClampBoundsFromAbove(r *Run) {
 	}
 	r.check(n >= 1, "repo:clamped-allocations", fmt.Sprintf("%d", n), "none found: rule needs review", "-")
 }
+
+// ---------------------------------------------------------------------------------------------
+// Round i: R16.28–R16.30, R14.18, R2.16, R4.18
+
+func init() {
+	register(ruleDef{ID: "R16.28", Prop: "C16", Tier: "quick", Floor: 2,
+		Title: "every write of an annotation starts from the stored record: in neuronjson.Data.storeAndUpdate every path to the merge (updateJSON) passes the read of the stored record (getStoreData) — the merge decides from it which <field>_user / <field>_time stamps are kept, also for replace=true",
+		Fn:    ruleUpdateStartsFromStoredRecord})
+	register(ruleDef{ID: "R16.29", Prop: "C16", Tier: "quick", Floor: 2,
+		Title: "a write that passed validation reaches memory and the store: in neuronjson.Data.storeAndUpdate every success return behind the merge lies behind the store write (putStoreData), and on the in-memory branch behind the update of mdb.data — no 'nothing changed' shortcut, whose comparison sees a record the merge has already edited in place",
+		Fn:    ruleMergedRecordIsWritten})
+	register(ruleDef{ID: "R16.30", Prop: "C16", Tier: "quick", Floor: 2,
+		Title: "the in-memory listing offers every annotation to the field selection: in neuronjson.Data.GetAll every pass of the loop over the in-memory records calls selectFields, as the store path's callback does (a pre-filter on the head drops annotations that only keep a field's _user/_time stamps, which the store path lists)",
+		Fn:    ruleGetAllOffersEveryRecord})
+	register(ruleDef{ID: "R14.18", Prop: "C14", Tier: "quick", Floor: 1,
+		Title: "the solid-block shortcut compares every octant: in labels.Block.setBlank every way round the loop over the octants passes the comparison of the octant's label with the label seen so far (or the statement that records the first one) — an octant left out of the comparison, e.g. a background one, is overwritten by the others' label",
+		Fn:    ruleSetBlankComparesEveryOctant})
+	register(ruleDef{ID: "R10.13", Prop: "C10", Tier: "quick", Floor: 1, Title: "(= R14.18) the solid-block shortcut of Downres compares every octant", Fn: ruleSetBlankComparesEveryOctant})
+	register(ruleDef{ID: "R2.16", Prop: "C02", Tier: "quick", Floor: 1,
+		Title: "a conflict is deleted in the version made for it: in datastore.deleteConflict the version of the context that Delete is given comes from the UUID that newVersion returned (or the extension node's new UUID), never from the committed parent's UUID",
+		Fn:    ruleConflictDeletedInNewVersion})
+	register(ruleDef{ID: "R4.18", Prop: "C04", Tier: "quick", Floor: 1,
+		Title: "the first start writes the id counters first: in datastore.Initialize, on the branch that initialises an empty store, no metadata write precedes putNewIDs (the loader accepts missing maps and a missing format key after a crash, but not missing counters)",
+		Fn:    ruleFirstStartCountersFirst})
+}
+
+func ruleUpdateStartsFromStoredRecord(r *Run) {
+	w := r.W
+	f := w.method("datatype/neuronjson", "Data", "storeAndUpdate")
+	if f == nil || len(f.Blocks) == 0 {
+		r.undecided("neuronjson.Data.storeAndUpdate", "anchor not found")
+		return
+	}
+	isRead := func(x ssa.Instruction) bool {
+		c, ok := x.(ssa.CallInstruction)
+		return ok && methodNameOf(c) == "getStoreData"
+	}
+	n := 0
+	for _, c := range calls(f) {
+		if callee := staticCallee(c); callee == nil || callee.Name() != "updateJSON" {
+			continue
+		}
+		n++
+		pth := findPath(f, nil, isRead, func(x ssa.Instruction) bool { return x == ssa.Instruction(c) }, nil)
+		r.check(pth == nil, fmt.Sprintf("storeAndUpdate:merge#%d:behind-the-read-of-the-stored-record", n), "every path to the merge reads the stored record first",
+			"the merge can be reached without the stored record having been read: unchanged fields get the poster's name and the current time as their _user/_time stamps, in memory and in the store", w.pos(c.Pos()), w.renderPath(pth)...)
+	}
+	r.check(n >= 1, "storeAndUpdate:merges", fmt.Sprintf("%d", n), "no call of updateJSON found: rule needs review", w.fpos(f))
+}
+
+func ruleMergedRecordIsWritten(r *Run) {
+	w := r.W
+	f := w.method("datatype/neuronjson", "Data", "storeAndUpdate")
+	if f == nil || len(f.Blocks) == 0 {
+		r.undecided("neuronjson.Data.storeAndUpdate", "anchor not found")
+		return
+	}
+	var merge ssa.Instruction
+	for _, c := range calls(f) {
+		if callee := staticCallee(c); callee != nil && callee.Name() == "updateJSON" {
+			merge = c
+		}
+	}
+	if merge == nil {
+		r.undecided("neuronjson.Data.storeAndUpdate", "updateJSON call not found")
+		return
+	}
+	isPut := func(x ssa.Instruction) bool {
+		c, ok := x.(ssa.CallInstruction)
+		return ok && methodNameOf(c) == "putStoreData"
+	}
+	// a return whose value is the store write's own result counts as behind it (return d.putStoreData(...))
+	pth := findPath(f, merge, isPut, successExit, nil)
+	r.check(pth == nil, "storeAndUpdate:success-behind-the-store-write", "every success return behind the merge lies behind putStoreData",
+		"a success return can be reached from the merge without the store write: the request is acknowledged (and logged) but the record is unchanged in the store", w.pos(merge.Pos()), w.renderPath(pth)...)
+	// the in-memory update: on the branch where the head database was found, mdb.data is updated before the write
+	var memUpd ssa.Instruction
+	for _, b := range f.Blocks {
+		for _, in := range b.Instrs {
+			if mu, ok := in.(*ssa.MapUpdate); ok && isFieldLoad(mu.Map, "memdb", "data") {
+				memUpd = in
+			}
+		}
+	}
+	r.check(memUpd != nil, "storeAndUpdate:in-memory-update", "the head database's record map is updated", "no update of mdb.data found: the head no longer follows the store", w.fpos(f))
+}
+
+func ruleGetAllOffersEveryRecord(r *Run) {
+	w := r.W
+	f := w.method("datatype/neuronjson", "Data", "GetAll")
+	if f == nil || len(f.Blocks) == 0 {
+		r.undecided("neuronjson.Data.GetAll", "anchor not found")
+		return
+	}
+	n := 0
+	for _, b := range f.Blocks {
+		for _, in := range b.Instrs {
+			nx, ok := in.(*ssa.Next)
+			if !ok {
+				continue
+			}
+			rg, ok := nx.Iter.(*ssa.Range)
+			if !ok || !isFieldLoad(rg.X, "memdb", "data") {
+				continue
+			}
+			n++
+			var ok2 ssa.Value
+			for _, ref := range *nx.Referrers() {
+				if ex, isEx := ref.(*ssa.Extract); isEx && ex.Index == 0 {
+					ok2 = ex
+				}
+			}
+			_ = ok2
+			isSelect := func(x ssa.Instruction) bool {
+				c, ok := x.(ssa.CallInstruction)
+				if !ok {
+					return false
+				}
+				callee := staticCallee(c)
+				return callee != nil && callee.Name() == "selectFields"
+			}
+			// from the body of the loop (the successor of the "more elements" test) back to the Next
+			h := nx.Block()
+			var body *ssa.BasicBlock
+			if ifi, ok := h.Instrs[len(h.Instrs)-1].(*ssa.If); ok {
+				_ = ifi
+				body = h.Succs[0]
+			}
+			var pth []ssa.Instruction
+			if body != nil && len(body.Instrs) > 0 {
+				first := body.Instrs[0]
+				if !isSelect(first) {
+					pth = findPath(f, first, isSelect, func(x ssa.Instruction) bool { return x == ssa.Instruction(nx) }, nil)
+				}
+			}
+			r.check(body != nil && pth == nil, fmt.Sprintf("GetAll:in-memory-loop#%d:every-record-offered", n), "every pass calls selectFields",
+				"a pass of the loop over the in-memory records can go round without calling selectFields: the head leaves out annotations that the store path — which hands every record to selectFields — lists for the same request", w.pos(nx.Pos()), w.renderPath(pth)...)
+		}
+	}
+	// the store path's callback calls it too
+	k := 0
+	for _, a := range f.AnonFuncs {
+		for _, c := range calls(a) {
+			if callee := staticCallee(c); callee != nil && callee.Name() == "selectFields" {
+				k++
+			}
+		}
+	}
+	r.check(n >= 1 && k >= 1, "GetAll:both-paths-select", fmt.Sprintf("%d in-memory loops, %d store callbacks that select", n, k), "anchor not found: rule needs review", w.fpos(f))
+}
+
+func ruleSetBlankComparesEveryOctant(r *Run) {
+	w := r.W
+	f := w.method("datatype/common/labels", "Block", "setBlank")
+	if f == nil || len(f.Blocks) == 0 {
+		r.undecided("labels.Block.setBlank", "anchor not found")
+		return
+	}
+	loops := naturalLoops(f)
+	n := 0
+	for _, h := range f.Blocks {
+		set := loops[h]
+		if set == nil {
+			continue
+		}
+		// the label remembered across passes: a uint64 phi of the header
+		var lbl *ssa.Phi
+		for _, in := range h.Instrs {
+			if phi, ok := in.(*ssa.Phi); ok && phi.Type().String() == "uint64" {
+				lbl = phi
+			}
+		}
+		if lbl == nil {
+			continue
+		}
+		n++
+		// what settles an octant: a comparison with the remembered label, or the pass that records it (the phi's
+		// in-loop edge is defined there) — found as: a block of the loop that holds a comparison lbl ==/!= x, or
+		// the block that defines the value flowing back into lbl
+		settles := func(x ssa.Instruction) bool {
+			bo, ok := x.(*ssa.BinOp)
+			if !ok || (bo.Op != token.NEQ && bo.Op != token.EQL) {
+				return false
+			}
+			return stripConv(bo.X) == ssa.Value(lbl) || stripConv(bo.Y) == ssa.Value(lbl)
+		}
+		// passes that record the first label: the test that selects them (i == 0) — accept a comparison of the
+		// loop counter with the constant 0 as settling as well
+		first := func(x ssa.Instruction) bool {
+			bo, ok := x.(*ssa.BinOp)
+			if !ok || bo.Op != token.EQL {
+				return false
+			}
+			k, isK := constInt(bo.Y)
+			if !isK || k != 0 {
+				return false
+			}
+			if !strings.HasPrefix(bo.X.Type().String(), "int") {
+				return false
+			}
+			// the loop counter: a header phi, or header phi + 1
+			cv := stripConv(bo.X)
+			if add, ok := cv.(*ssa.BinOp); ok && add.Op == token.ADD {
+				cv = stripConv(add.X)
+			}
+			phi, isPhi := cv.(*ssa.Phi)
+			return isPhi && phi != lbl && phi.Block() == h
+		}
+		// from the first instruction after the header's test to the header again
+		var pth []ssa.Instruction
+		for _, s := range h.Succs {
+			if !set[s] || len(s.Instrs) == 0 {
+				continue
+			}
+			start := s.Instrs[0]
+			if settles(start) || first(start) {
+				continue
+			}
+			p := findPath(f, start, func(x ssa.Instruction) bool { return settles(x) || first(x) }, func(x ssa.Instruction) bool { return x == h.Instrs[0] }, func(bb *ssa.BasicBlock, i int) bool { return set[bb.Succs[i]] })
+			if p != nil {
+				pth = p
+			}
+		}
+		r.check(pth == nil, fmt.Sprintf("setBlank:octant-loop#%d:every-octant-compared", n), "every way round the loop passes the comparison with the label seen so far",
+			"a pass of the loop over the octants can go round without comparing the octant's label with the label seen so far: an octant that is left out (e.g. a solid background one) is overwritten with the other octants' label when the parent is declared solid", w.pos(blockPos(h)), w.renderPath(pth)...)
+	}
+	r.check(n >= 1, "setBlank:octant-loops", fmt.Sprintf("%d", n), "no loop with a remembered label found: rule needs review", w.fpos(f))
+}
+
+func ruleConflictDeletedInNewVersion(r *Run) {
+	w := r.W
+	f := w.fn("datastore", "deleteConflict")
+	if f == nil || len(f.Blocks) == 0 {
+		r.undecided("datastore.deleteConflict", "anchor not found")
+		return
+	}
+	n := 0
+	for _, c := range calls(f) {
+		if methodNameOf(c) != "versionFromUUID" {
+			continue
+		}
+		args := c.Common().Args
+		if len(args) == 0 {
+			continue
+		}
+		n++
+		uuid := args[len(args)-1]
+		fromNew, fromOld := false, false
+		stopAtNewVersion := func(v ssa.Value) bool {
+			if cc, ok := v.(*ssa.Call); ok && methodNameOf(cc) == "newVersion" {
+				return true
+			}
+			return false
+		}
+		for d := range dataDepsUntil(uuid, stopAtNewVersion) {
+			switch x := d.(type) {
+			case *ssa.Call:
+				if methodNameOf(x) == "newVersion" {
+					fromNew = true
+				}
+			case *ssa.Extract:
+				if cc, ok := x.Tuple.(*ssa.Call); ok && methodNameOf(cc) == "newVersion" {
+					fromNew = true
+				}
+			case *ssa.FieldAddr:
+				nm, _, _ := fieldName(x)
+				if nm == "newUUID" {
+					fromNew = true
+				}
+				if nm == "oldUUID" {
+					fromOld = true
+				}
+			}
+		}
+		r.check(fromNew && !fromOld, fmt.Sprintf("deleteConflict:version-lookup#%d:of-the-new-node", n), "the version looked up is that of the node made for the deletion",
+			"the version handed to the deletion is looked up from the committed parent's UUID: the conflicting key is deleted — and a tombstone written — at a committed version, whose reads change", w.pos(c.Pos()))
+	}
+	r.check(n >= 1, "deleteConflict:version-lookups", fmt.Sprintf("%d", n), "none found: rule needs review", w.fpos(f))
+}
+
+func ruleFirstStartCountersFirst(r *Run) {
+	w := r.W
+	f := w.fn("datastore", "Initialize")
+	if f == nil || len(f.Blocks) == 0 {
+		r.undecided("datastore.Initialize", "anchor not found")
+		return
+	}
+	var ids ssa.Instruction
+	for _, c := range calls(f) {
+		if methodNameOf(c) == "putNewIDs" {
+			ids = c
+		}
+	}
+	if ids == nil {
+		r.violation("Initialize:putNewIDs", "the first start no longer writes the id counters", w.fpos(f))
+		return
+	}
+	isWrite := func(x ssa.Instruction) bool {
+		c, ok := x.(ssa.CallInstruction)
+		if !ok || x == ids {
+			return false
+		}
+		switch methodNameOf(c) {
+		case "putData", "putCaches", "Put", "save", "saveToStore":
+			return true
+		}
+		return false
+	}
+	// a metadata write on a path to putNewIDs
+	var wit []ssa.Instruction
+	for _, c := range calls(f) {
+		if isWrite(c) {
+			if p := findPath(f, c, nil, func(x ssa.Instruction) bool { return x == ids }, nil); p != nil {
+				wit = append([]ssa.Instruction{c}, p...)
+			}
+		}
+	}
+	r.check(wit == nil, "Initialize:first-start:counters-written-first", "no metadata write precedes putNewIDs",
+		"on the first start another metadata record is written before the id counters: a crash between the two leaves a store that every later start refuses (the loader tolerates missing maps and a missing format key, not missing counters)", w.pos(ids.Pos()), w.renderPath(wit)...)
+}
